@@ -21,7 +21,7 @@ PIPES = {
     "C20": ["regex"],
     "C12": ["cut"],
     "C13": ["group"],
-    "C14": ["session"],
+    "C14": ["session", "solver"],
     "C15": ["rewrite"],
     "C17": ["render"],
     "C18": ["render"],
